@@ -324,5 +324,23 @@ Fixpoint ms_sorted_b (fs : list rfile) : bool :=
 Definition files_inv_b (c : cfg) (fs : list rfile) : bool :=
   cfg_ok_b c && forallb (file_ok_b c) fs && ms_sorted_b fs.
 
+(* several top-level directories: every directory satisfies the invariant and no file period is
+   recorded in two directories (side condition of the multi-directory theorems, C11) *)
+Fixpoint nodup_zb (l : list Z) : bool :=
+  match l with
+  | [] => true
+  | x :: r => negb (existsb (Z.eqb x) r) && nodup_zb r
+  end.
+
+Definition dirs_ok (c : cfg) (dirs : list (list rfile)) : Prop :=
+  cfg_ok c /\ Forall (FilesInv c) dirs /\ NoDup (map file_ms (concat dirs)).
+
+Definition dirs_ok_b (c : cfg) (dirs : list (list rfile)) : bool :=
+  cfg_ok_b c && forallb (files_inv_b c) dirs && nodup_zb (map file_ms (concat dirs)).
+
+(* the recording held by several directories *)
+Definition dirs_abs (dirs : list (list rfile)) (k : Z) : option V :=
+  first_some (fun fs => files_abs fs k) dirs.
+
 End Reader.
 Arguments rfile : clear implicits.
